@@ -238,6 +238,9 @@ func (o c08Op) String() string {
 	if o.kind == "render" {
 		return fmt.Sprintf("render %s data#%d ij=%v msgs=%v", o.tmpl, o.data, o.ij, o.msgs)
 	}
+	if o.kind == "reconf" {
+		return "replace the custom function and directive of the JavaScript backend"
+	}
 	return fmt.Sprintf("js file#%d es6=%v msgs=%v generator=%v", o.file, o.es6, o.msgs, o.viaGen)
 }
 
@@ -324,8 +327,22 @@ func newWorld(files []srcFile, globals map[string]ref.Value, datas []map[string]
 	return w, nil
 }
 
+// c08Reconfigure replaces the custom function and directive of the JavaScript backend by other implementations (the
+// registries are the user's to change at any time; what is generated afterwards follows them).
+var c08Variant int
+
+func c08Reconfigure() {
+	c08Variant++
+	v := c08Variant
+	soyjs.PrintDirectives["verifBang"] = soyjs.PrintDirective{Name: fmt.Sprintf("verif.bang%d", v%3), CancelAutoescape: false}
+	soyjs.Funcs["verifTwice"] = soyjs.Func{Name: "verifTwice", Apply: func(js soyjs.JSWriter, args []ast.Node) { js.Write(fmt.Sprintf("verif.twice%d(", v%3), args[0], ")") }, ValidArgLengths: []int{1}}
+}
+
 func (w *c08World) exec(o c08Op) (out string, err error) {
 	var buf bytes.Buffer
+	if o.kind == "reconf" {
+		return "", nil // (the registries were changed by the history loop, once, before both worlds run what follows)
+	}
 	if o.kind == "render" {
 		armRenderBudget()
 		r := w.tofu.NewRenderer(o.tmpl)
@@ -413,8 +430,17 @@ func c08History(r *fw.Rand, tier, config string, nops int) (files []srcFile, pro
 	}
 	names = append(names, "pr.callforms", "pr.callforms", "pr.dirforms", "pr.funcforms", "pr.pluralforms", "pr.pluralforms", "pr.samewords1", "pr.samewords2", "pr.samewords2", "pr.samewords1", "twa.t", "twb.t", "twb.t", "twa.t")
 	for k := 0; k < nops; k++ {
+		if config == "custom" && r.P(1, 10) {
+			ops = append(ops, c08Op{kind: "reconf"})
+			continue
+		}
 		if r.P(1, 4) {
-			ops = append(ops, c08Op{kind: "js", file: r.Intn(64), es6: r.Bool(), msgs: r.P(1, 3), viaGen: r.P(1, 4)})
+			op := c08Op{kind: "js", file: r.Intn(64), es6: r.Bool(), msgs: r.P(1, 3), viaGen: r.P(1, 4)}
+			if config == "custom" && r.Bool() {
+				// the file that uses the custom function and directive, often through the long-lived generator
+				op.file, op.viaGen = len(prog.B.Files), r.Bool()
+			}
+			ops = append(ops, op)
 			continue
 		}
 		name := prog.Entry
@@ -476,6 +502,11 @@ func init() {
 			var hist []string
 			for k, op := range ops {
 				hist = append(hist, op.String())
+				if op.kind == "reconf" {
+					c08Reconfigure()
+					ctx.Obs("registry_reconfigurations", 1)
+					continue
+				}
 				before := digestAll()
 				out, err := w.exec(op)
 				after := digestAll()
